@@ -336,7 +336,50 @@ def near_miss_families(chk, tie, da):
     fams["take-like"] = [("take[0,2]a0", lambda: da.take(x13 + 1, [0, 2], axis=0)), ("take[0,2]a1", lambda: da.take(x13 + 1, [0, 2], axis=1)), ("take[2,0]a0", lambda: da.take(x13 + 1, [2, 0], axis=0)),
                          ("diag0", lambda: da.diagonal(x13 + 1)), ("diag1", lambda: da.diagonal(x13 + 1, 1)), ("diag-1", lambda: da.diagonal(x13 + 1, -1)),
                          ("tril", lambda: da.tril(x13 + 1)), ("triu", lambda: da.triu(x13 + 1)), ("tril1", lambda: da.tril(x13 + 1, 1))]
+    d3n = np.arange(6 * 7 * 4, dtype="float64").reshape(6, 7, 4)
+    d3 = da.from_array(d3n, chunks=(2, 3, 2))
+    wn = np.arange(1.0, 4.0)
+    regs = [((3, slice(2, 5), slice(1, 2)), "d[3,2:5,1:2]"), ((slice(3, 4), slice(2, 5), 1), "d[3:4,2:5,1]"), ((slice(3, 4), 2, slice(1, 4)), "d[3:4,2,1:4]"),
+            ((3, 2, slice(1, 4)), "d[3,2,1:4]"), ((slice(3, 4), slice(2, 3), slice(1, 4)), "d[3:4,2:3,1:4]"), ((3, slice(2, 3), 1), "d[3,2:3,1]"),
+            ((slice(3, 4), 2, 1), "d[3:4,2,1]")]
+    # the same REGION of one source with the integer on different axes; consumed through a broadcasting op and a reduction
+    fams["from_array:int-axis"] = [(lab, (lambda ix=ix: (d3[ix] * (da.from_array(wn, chunks=2) if d3n[ix].shape[-1:] == (3,) else 2.0)).sum()),
+                                    (lambda ix=ix: (d3n[ix] * (wn if d3n[ix].shape[-1:] == (3,) else 2.0)).sum())) for ix, lab in regs]
+    fams["from_array:int-axis"] += [(lab + ".raw", (lambda ix=ix: d3[ix] + 1), (lambda ix=ix: d3n[ix] + 1)) for ix, lab in regs]
+    # creation arrays with a user-pinned name, then sliced (the rewrite product must not keep the pinned name)
+    fams["creation:pinned-name"] = [
+        ("full[:3].sum", lambda: da.full((10, 4), 2.0, chunks=(5, 2), name="weights-a")[:3].sum(), lambda: np.full((10, 4), 2.0)[:3].sum()),
+        ("full.sum", lambda: da.full((10, 4), 2.0, chunks=(5, 2), name="weights-a").sum(), lambda: np.full((10, 4), 2.0).sum()),
+        ("ones[2:4]*3", lambda: (da.ones(10, chunks=5, name="ones-o")[2:4] * 3).sum(), lambda: 6.0),
+        ("ones[::2]", lambda: da.ones(10, chunks=5, name="ones-o")[::2] + 1, lambda: np.ones(10)[::2] + 1),
+        ("zeros[1:,0]", lambda: da.zeros((4, 6), chunks=(2, 3), name="zeros-z")[1:, 0] + 5, lambda: np.zeros((4, 6))[1:, 0] + 5),
+        ("full[[0,2]]", lambda: da.full((6,), 3.0, chunks=2, name="full-f")[[0, 2]] * 2, lambda: np.full((6,), 3.0)[[0, 2]] * 2),
+        ("arange-named", lambda: da.arange(10, chunks=5, name="ar-n")[3:7] * 2, lambda: np.arange(10)[3:7] * 2),
+    ]
     import gc
+    # phase 0: members that come with a NumPy oracle must equal it (also when built alone)
+    for fam, members in fams.items():
+        for m in members:
+            if len(m) < 3:
+                continue
+            label, mk, npf = m
+            try:
+                with warnings.catch_warnings():
+                    warnings.simplefilter("ignore")
+                    a = mk()
+                    got = np.asarray(a.compute(scheduler="sync"))
+                    want = np.asarray(npf())
+            except Exception as e:  # noqa: BLE001
+                chk.count(f"near-miss:oracle-skipped:{fam}:{type(e).__name__}")
+                continue
+            chk.count("near-miss:numpy-oracle")
+            if got.shape != want.shape or not np.allclose(got, want):
+                chk.violation(f"{fam}: {label} computes {got.tolist() if got.size < 12 else got.shape}, NumPy {want.tolist() if want.size < 12 else want.shape}: "
+                              "a rewrite product carries a name that already denotes another array, and de-duplication by name substituted it",
+                              {"family": fam, "member": label, "name": a.name}, signature={"class": "node-name-collision", "cls": type(a.expr).__name__, "via": "near-miss:" + fam.split(":")[0]})
+            a = None
+            gc.collect()
+    fams = {fam: [m[:2] for m in members] for fam, members in fams.items()}
     # phase 1: every member built ALONE (the previous one dropped and collected first, so no registry can substitute it)
     solo = {}
     for fam, members in fams.items():
